@@ -380,6 +380,9 @@ public:
     Command* decl;
     const Token& startTok;
     bool shellEscapeInAndOut;
+
+    /// The rule variables currently being expanded, innermost last.
+    SmallVector<StringRef, 4> activeRuleVariables;
   };
   static void lookupBuildParameter(void* userContext, StringRef name,
                                    raw_ostream& result) {
@@ -421,11 +424,23 @@ public:
     }
     auto it2 = decl->getRule()->getParameters().find(name);
     if (it2 != decl->getRule()->getParameters().end()) {
+      // A rule variable that (directly or indirectly) refers to itself would be
+      // expanded without end; report the cycle instead.
+      for (const auto& active: context->activeRuleVariables) {
+        if (active == name) {
+          error("cycle in rule variables involving '" + name.str() + "'",
+                context->startTok);
+          return;
+        }
+      }
+
+      context->activeRuleVariables.push_back(name);
       evalString(context, it2->second, result, lookupBuildParameter,
                  /*Error=*/ [&](const std::string& msg) {
                    error(msg + " during evaluation of '" + name.str() + "'",
                          context->startTok);
                  });
+      context->activeRuleVariables.pop_back();
       return;
     }
       
